@@ -37,6 +37,9 @@ struct ScriptedEngine {
     void discard(unsigned long long n) { for (unsigned long long i = 0; i < n; i++) (*this)(); }
     // next uniform_real draw will be k/64
     void push_uniform_64ths(int k) { script.push_back((uint64_t)k << 58); }
+    // next uniform_real draw will be num / 2^20; with an odd numerator it can never tie with a
+    // product of small fractions such as s/N * k/64 (a tie would be decided by double rounding)
+    void push_uniform_2p20(int num) { script.push_back((uint64_t)num << 44); }
 };
 
 // Provider with one engine per named stream, as RandomNumberGeneratorProvider exposes them.
@@ -64,6 +67,9 @@ inline bool selftest_uniform() {
         e.push_uniform_64ths(k);
         double u = d(e);
         if (u != k / 64.0 || e.calls != before + 1) return false;
+        e.push_uniform_2p20(2 * k + 1);
+        u = d(e);
+        if (u != (2 * k + 1) / 1048576.0) return false;
     }
     std::bernoulli_distribution b(0.5);
     e.push_uniform_64ths(31); if (!b(e)) return false;
@@ -77,6 +83,9 @@ using Env = pops::Environment<IRaster, DRaster, int, Provider>;
 using Pool = pops::HostPool<IRaster, DRaster, int, Provider>;
 using MultiPool = pops::MultiHostPool<Pool, IRaster, DRaster, int, Provider>;
 using Pests = pops::PestPool<IRaster, DRaster, int>;
+
+inline std::string rat2p20(int num) { return std::to_string(num) + "/1048576"; }  // odd numerators only
+inline int odd2p20(Rng& rng) { return 2 * rng.in(0, (1 << 19) - 1) + 1; }
 
 inline std::string rat64(int k) {  // k/64 reduced
     int d = 64;
